@@ -308,6 +308,32 @@ func (w *walker) rootField(e ast.Expr) (field, rest string, ok bool) {
 	return "", "", false
 }
 
+// promotedRoot: the expression is rooted at recv.x where x is neither a declared field nor a method of the type
+func (w *walker) promotedRoot(e ast.Expr) (string, bool) {
+	for {
+		switch x := e.(type) {
+		case *ast.ParenExpr:
+			e = x.X
+		case *ast.IndexExpr:
+			e = x.X
+		case *ast.StarExpr:
+			e = x.X
+		case *ast.SelectorExpr:
+			if id, ok := x.X.(*ast.Ident); ok {
+				if id.Name == w.recv && !w.isField(x.Sel.Name) {
+					if _, isMethod := w.tf.byName[x.Sel.Name]; !isMethod {
+						return x.Sel.Name, true
+					}
+				}
+				return "", false
+			}
+			e = x.X
+		default:
+			return "", false
+		}
+	}
+}
+
 // lockPath gives a printable path for the mutex operand of a Lock/Unlock call, resolving local aliases of
 // receiver fields: mpt.mutex -> "mutex"; mc.mu with mc := ml.core -> "core.mu"; bc.mu (parameter) -> "bc.mu".
 func (w *walker) lockPath(e ast.Expr) string {
@@ -316,6 +342,10 @@ func (w *walker) lockPath(e ast.Expr) string {
 			return f
 		}
 		return f + "." + r
+	}
+	if id, ok := e.(*ast.Ident); ok {
+		// a bare local (mu := &x.mu; mu.Lock()): never to be confused with a receiver field of the same name
+		return "local:" + id.Name
 	}
 	return w.p.text(e)
 }
@@ -344,6 +374,14 @@ func stmtLock(w *walker, s ast.Stmt) (path, op string, deferred, ok bool) {
 	case *ast.DeferStmt:
 		path, op, ok = w.lockCall(x.Call)
 		deferred = true
+		if !ok {
+			// defer func() { X.Unlock() }() - a closure that does nothing but the unlock
+			if fl, isLit := x.Call.Fun.(*ast.FuncLit); isLit && len(x.Call.Args) == 0 && len(fl.Body.List) == 1 {
+				if es, isExpr := fl.Body.List[0].(*ast.ExprStmt); isExpr {
+					path, op, ok = w.lockCall(es.X)
+				}
+			}
+		}
 	}
 	return
 }
@@ -779,6 +817,11 @@ func (w *walker) walkLHS(l ast.Expr, c wctx, rhs ast.Expr, at ast.Node) {
 	}
 	f, rest, ok := w.rootField(l)
 	if !ok {
+		if name, isProm := w.promotedRoot(l); isProm {
+			// recv.x where x is not a declared field: promoted from an embedded struct - cannot be resolved
+			w.add("<promoted>", "assign", c, name, at)
+			return
+		}
 		// not rooted at the receiver: walk the operand expressions as reads (index expressions etc.)
 		switch x := l.(type) {
 		case *ast.SelectorExpr:
